@@ -492,6 +492,10 @@ unsafe impl<T, const D: usize> TensorRef<T, D> for Tensor<T, D> {
         // it does not make any sense to just use `unwrap` here. The trait documents that
         // it's undefind behaviour to call this method with an out of bounds index, so we
         // can assume the None case will never happen.
+        #[cfg(feature = "verif-hooks")]
+        crate::verif_hooks::tensor_access(
+            &indexes, &self.shape, &self.strides, self.data.len(), self.data.as_ptr() as usize, false,
+        );
         let i = get_index_direct(&indexes, &self.strides, &self.shape).unwrap_unchecked();
         self.data.get_unchecked(i)
     }
@@ -516,6 +520,10 @@ unsafe impl<T, const D: usize> TensorMut<T, D> for Tensor<T, D> {
         // it does not make any sense to just use `unwrap` here. The trait documents that
         // it's undefind behaviour to call this method with an out of bounds index, so we
         // can assume the None case will never happen.
+        #[cfg(feature = "verif-hooks")]
+        crate::verif_hooks::tensor_access(
+            &indexes, &self.shape, &self.strides, self.data.len(), self.data.as_ptr() as usize, true,
+        );
         let i = get_index_direct(&indexes, &self.strides, &self.shape).unwrap_unchecked();
         self.data.get_unchecked_mut(i)
     }
@@ -1946,3 +1954,11 @@ tensor_expand_impl!(impl Tensor 2 1);
 tensor_expand_impl!(impl Tensor 3 1);
 tensor_expand_impl!(impl Tensor 4 1);
 tensor_expand_impl!(impl Tensor 5 1);
+
+#[cfg(feature = "verif-hooks")]
+impl<T, const D: usize> Tensor<T, D> {
+    /// Verification hook: the number of elements actually stored, to compare with the shape.
+    pub fn verif_storage_len(&self) -> usize {
+        self.data.len()
+    }
+}
